@@ -11,19 +11,22 @@
 // FAIL lines are errors of the generator (exit 1). NOTE lines describe behaviour of livesim2 itself on the
 // generated input that deviates from the expectation (possible defects, reported to the property owners).
 //
-//	assetgentest [-keep] [-v] [-only name]
+//	assetgentest [-keep] [-v] [-only name] [-seed s] [-rand n]
 package main
 
 import (
 	"bytes"
 	"flag"
 	"fmt"
+	"math/rand"
 	"os"
 	"path/filepath"
 	"sort"
 	"strings"
 
 	"verifharness/lib"
+
+	"github.com/Dash-Industry-Forum/livesim2/cmd/livesim2/app"
 )
 
 const nowMS = 600_000
@@ -196,6 +199,18 @@ func loopTicks(a lib.GenAsset, r lib.GenRep) uint64 {
 	return ms * uint64(r.Timescale) / 1000
 }
 
+func describe(a lib.GenAsset) string {
+	var parts []string
+	for _, r := range a.Reps {
+		mode := "nr"
+		if r.TimelineMPD {
+			mode = "tl"
+		}
+		parts = append(parts, fmt.Sprintf("%s:%s/%d/%d N=%d %s", r.ID, r.Kind, r.Timescale, r.SampleDur, r.N(), mode))
+	}
+	return "[" + strings.Join(parts, "; ") + "]"
+}
+
 func nvl(v, d int) int {
 	if v == 0 {
 		return d
@@ -261,7 +276,10 @@ func (t *tester) checkAudioRep(a lib.GenAsset, ri int) {
 		if int(obs.Seq) != n {
 			t.note("audio-seq:"+a.Name+"/"+au.ID, "%s: mfhd sequence number %d, expected %d", url, obs.Seq, n)
 		}
-		if obs.Tag != lib.GenRepTag(au.ID) || obs.MixedTags {
+		if len(obs.Idx) == 0 {
+			t.note("audio-empty:"+a.Name+"/"+au.ID, "%s -> 200 with a segment of 0 samples at tfdt %d (reference segment [%d,%d) lies inside one audio frame; expected [%d,%d))",
+				url, obs.Tfdt, refStart, refEnd, wantStart, wantEnd)
+		} else if obs.Tag != lib.GenRepTag(au.ID) || obs.MixedTags {
 			t.fail("%s: foreign samples tag=%x", url, obs.Tag)
 		}
 		if havePrev && obs.Tfdt != prevEnd {
@@ -317,10 +335,100 @@ func (t *tester) checkVodFiles(a lib.GenAsset) {
 	}
 }
 
+// checkCache: a server that writes the representation-metadata files and one that starts from them must serve
+// the generated assets like the scanning server (C15 uses generated layouts this way).
+func (t *tester) checkCache(base string, cat []lib.GenLayout) {
+	repData := filepath.Join(base, "repdata")
+	scan := t.ls
+	wr, err := lib.NewLivesim(t.root, func(cfg *app.ServerConfig) { cfg.RepDataRoot = repData; cfg.WriteRepData = true })
+	if err != nil {
+		t.fail("server with writerepdata: %v", err)
+		return
+	}
+	rd, err := lib.NewLivesim(t.root, func(cfg *app.ServerConfig) { cfg.RepDataRoot = repData; cfg.WriteRepData = false })
+	if err != nil {
+		t.fail("server from repdata: %v", err)
+		return
+	}
+	defer func() { t.ls = scan }()
+	for _, l := range cat {
+		a := l.Asset
+		var urls []string
+		urls = append(urls, "/livesim2/"+a.Name+"/Manifest.mpd", "/livesim2/segtimeline_1/"+a.Name+"/Manifest.mpd")
+		for ri, r := range a.Reps {
+			ext := ".m4s"
+			if r.Kind == "thumbs" {
+				ext = ".jpg"
+			}
+			refI := a.RefRep()
+			if refI < 0 {
+				continue
+			}
+			if r.Kind != "audio" {
+				refI = ri
+			}
+			ns, _ := liveRange(a, refI)
+			for _, n := range ns {
+				urls = append(urls, fmt.Sprintf("/livesim2/%s/%s/%d%s", a.Name, r.ID, n, ext))
+			}
+		}
+		for _, u := range urls {
+			t.ls = scan
+			r0 := t.get(u)
+			for i, other := range []*lib.Livesim{wr, rd} {
+				t.ls = other
+				r1 := t.get(u)
+				t.checks++
+				if r0.Status != r1.Status || r0.Panic != r1.Panic || (r0.Status == 200 && !bytes.Equal(r0.Body, r1.Body)) {
+					who := []string{"writing server", "server started from repdata"}[i]
+					msg := fmt.Sprintf("%s: scan %d/%q vs %s %d/%q (bodies equal: %v)", u, r0.Status, r0.Panic, who, r1.Status, r1.Panic, bytes.Equal(r0.Body, r1.Body))
+					if l.Class == "ok" {
+						t.fail("cache: %s", msg)
+					} else {
+						t.note("cache:"+a.Name, "%s", msg)
+					}
+				}
+			}
+		}
+	}
+}
+
+// checkDRM: informational. The generated video samples are length-prefixed NALUs with a fake slice; is that
+// enough for the ECCP encryption path?
+func (t *tester) checkDRM(cat []lib.GenLayout) {
+	for _, l := range cat {
+		if l.Class != "ok" {
+			continue
+		}
+		a := l.Asset
+		for ri, r := range a.Reps {
+			if r.Kind != "video" && r.Kind != "audio" {
+				continue
+			}
+			refI := ri
+			if r.Kind == "audio" {
+				refI = a.RefRep()
+			}
+			ns, _ := liveRange(a, refI)
+			for _, scheme := range []string{"cenc", "cbcs"} {
+				u := fmt.Sprintf("/livesim2/eccp_%s/%s/%s/%d.m4s", scheme, a.Name, r.ID, ns[len(ns)-1])
+				resp := t.get(u)
+				t.checks++
+				if resp.Status != 200 {
+					t.note(fmt.Sprintf("drm:%s:%s:%d:%s", r.Kind, scheme, resp.Status, resp.Panic), "%s -> %d panic=%q", u, resp.Status, resp.Panic)
+				}
+			}
+		}
+		return // one asset is enough
+	}
+}
+
 func main() {
 	keep := flag.Bool("keep", false, "keep the scratch directory")
 	verbose := flag.Bool("v", false, "print every note")
 	only := flag.String("only", "", "only the layout with this name")
+	seed := flag.Int64("seed", 1, "seed of the random layouts")
+	nRand := flag.Int("rand", 40, "number of random layouts (lib.RandGenAsset)")
 	flag.Parse()
 
 	base := filepath.Join("/verif/.scratch", fmt.Sprint(os.Getpid()))
@@ -347,6 +455,13 @@ func main() {
 		}
 		cat = append(cat, l)
 	}
+	if *only == "" {
+		rng := rand.New(rand.NewSource(*seed))
+		for i := 0; i < *nRand; i++ {
+			a := lib.RandGenAsset(rng, fmt.Sprintf("r_%03d", i), lib.RandGenOpts{AudioOwnGrid: i%4 == 3, Text: true, Thumbs: true})
+			cat = append(cat, lib.GenLayout{Asset: a, Class: "ok", Note: "random"})
+		}
+	}
 	for _, l := range cat {
 		if err := lib.WriteAsset(root, l.Asset); err != nil {
 			t.fail("WriteAsset %s: %v", l.Asset.Name, err)
@@ -366,7 +481,7 @@ func main() {
 		pred, why := a.PredictAdmission()
 		mpd := t.get("/livesim2/" + a.Name + "/Manifest.mpd")
 		served := mpd.Status == 200
-		fmt.Printf("%-22s class=%-4s rule-admits=%-5v served=%-5v mpd=%d %s\n", a.Name, l.Class, pred, served, mpd.Status, why)
+		fmt.Printf("%-22s class=%-4s rule-admits=%-5v served=%-5v mpd=%d %s %s\n", a.Name, l.Class, pred, served, mpd.Status, why, describe(a))
 		if mpd.Panic != "" {
 			t.note("mpd-panic:"+a.Name, "GET /livesim2/%s/Manifest.mpd panics: %s", a.Name, mpd.Panic)
 			for _, r := range a.Reps {
@@ -415,6 +530,9 @@ func main() {
 			}
 		}
 	}
+
+	t.checkCache(base, cat)
+	t.checkDRM(cat)
 
 	keys := make([]string, 0, len(t.notes))
 	for k := range t.notes {
